@@ -1,15 +1,26 @@
 CHECK = {
     "level": "model_checking",
-    "technique": "explicit-state search to fixpoint over (ring implementation state, model queue) pairs; the implementation state is the object's octet image (storage pointer blanked) plus the storage cells, so no particular encoding of head/tail/empty is assumed; roots: init+override(off) and init+override(on); observers and both iterators run in every state",
-    "rule": "a case is one transition (operation applied to a reachable state) followed by size/empty/full and both iterators run to completion; non-trivial = everything but clear of an empty ring",
-    "assumptions": ["two element values per type; capacities up to the stated bound (small-scope)",
+    "technique": "explicit-state search to fixpoint over (ring implementation state, model queue) pairs; the implementation state is the object's octet image (storage pointer blanked) plus the storage cells, so no particular encoding of head/tail/empty is assumed; "
+                 "roots: init (mode probed, not assumed), init+override(off), init+override(on), init of a 0xff-filled object (capacities <= 3); "
+                 "re-initialisation of the used object (NAME_init on fresh storage, capacities cap-1/cap/cap+1/1/max) is an operation of the search, its model is a freshly initialised ring (differential oracle: a re-initialised ring behaves like a fresh one); "
+                 "observers and both iterators run in every state, every iteration on iterator objects with 7 different histories; "
+                 "plus a bounded-exhaustive family of structured histories on capacities straddling 2^8 and 2^16 (thorough also 2^15, 2^17)",
+    "rule": "a case is one transition (operation applied to a reachable state) followed by size/empty/full and both iterators run to completion; non-trivial = everything but clear of an empty ring; "
+            "path numbers 0..5 are put(A) put(B) get clear override(on) override(off), 100+B is NAME_init(object, fresh storage, B); "
+            "probe cases: init, cap puts, one more put, get (decides the mode the model gives a freshly initialised ring); "
+            "big cases: one structured history (rotate cursors, fill, overfill, iterate, drain, iterate, two more puts, iterate, drain to empty)",
+    "assumptions": ["two element values per type; capacities up to the stated bound (small-scope); large capacities only through the structured family named in the bound, with position-dependent element values",
                     "instances: library octet_ring (uint8_t) and harness instantiations of the same macro template for uint16_t/uint32_t",
                     "the ring object is a flat struct whose only pointer is the member `data` (the harness re-points it at a fresh exact-size block per transition); a state is restored by copying the object's octets, padding included",
                     "no clause inspects head/tail or the iterator's index: a slot outside the storage is observed by ASan on the exact-size block",
-                    "the override mode chosen by init is not assumed: every explored history starts with an explicit override(on) or override(off)"],
+                    "the override mode chosen by init is not assumed: it is observed on a fresh zeroed object (fill, one more put, get: dropped or evicted) and the model of every ring that was only initialised -- for the first time, on an object that held 0xff octets, or again after use -- starts in that mode; every other history sets the mode explicitly",
+                    "NAME_init on a used object is read as the start of a new history of the statement (the ring then has the new capacity and is empty); a re-initialised state identical (object image, cells, model) to the fresh root of another capacity is not explored again in this partition, that capacity's own search explores it",
+                    "an rb_iter object may hold anything when NAME_iter is called on it (zero, 0xff, a finished or unfinished iteration over another ring or over this ring in the other direction): the statement's iterator clauses do not depend on the iterator object's past",
+                    "the lineage of the 0xff-filled object is kept within capacities <= 3 (its padding octets differ from a fresh object's, so none of its states is shared with the other roots)"],
     "harnesses": [{
         "name": "c19_ring", "src": "harness/c19_ring.c", "shape": "estate",
-        "lib": ["src/octet-ring.c", "src/ring-buffer-iter.c"], "shards": 16, "opt": "-O2", "min_outcomes": 8,
-        "require_outcomes": {"any": ["put-evicts", "put-dropped", "get-empty", "get-oldest", "clear"]},
+        "lib": ["src/octet-ring.c", "src/ring-buffer-iter.c"], "shards": 16, "opt": "-O2", "min_outcomes": 12,
+        "require_outcomes": {"any": ["put-evicts", "put-dropped", "get-empty", "get-oldest", "clear",
+                                     "reinit", "initial-dirty-object", "big-stored", "big-dropped", "big-evicts"]},
     }],
 }
